@@ -45,6 +45,8 @@ pub fn run_command_line(sh: &mut Shell, line: &str, tty: bool,
         let cr = run_proc(sh, &cmd, tty, capture);
         status = cr.status;
         sh.previous_status = status;
+        #[cfg(cicada_verif)]
+        crate::verif::on_pipeline_done(&cmd, status);
         cr_list.push(cr);
     }
     cr_list
